@@ -133,6 +133,8 @@ func GenSpec(t *rapid.T) *Spec {
 		s.RtMinPoolExtra = uint16(rapid.SampledFrom([]int{0, 0, 1, 2}).Draw(t, "rtMinPoolExtra"))
 		s.RtValidatorSet = rapid.IntRange(0, 3).Draw(t, "rtValidatorSet") == 0
 		s.RtOwnStake = rapid.Bool().Draw(t, "rtOwnStake")
+		s.RtSlash = uint64(rapid.SampledFrom([]int{0, 1, 100, 100}).Draw(t, "rtSlash"))
+		s.RtMaxInMsgs = uint32(rapid.SampledFrom([]int{0, 1, 2, 8}).Draw(t, "rtMaxInMsgs"))
 		if rapid.IntRange(0, 2).Draw(t, "rtForeignOwner") == 0 {
 			// owned by an entity that may lose its nodes and try to deregister
 			s.RtOwner = rapid.IntRange(1, s.NEntities-1).Draw(t, "rtOwner")
